@@ -45,6 +45,15 @@ func (x *Exec) call(st *State, call *ssa.Call, k retK) {
 
 func (x *Exec) callFunc(st *State, callee *ssa.Function, fnval *FnVal, args []Val, site ssa.Instruction, k retK) {
 	key := funcKey(callee)
+	if key == "pql.initKnownFunctions" {
+		// the table of built-in rewrites: read from the initialiser closure (sync.Once: assumed to have run it)
+		if x.E.kfTable() == nil {
+			limitf("cannot read the table built by initKnownFunctions")
+		}
+		x.usedModels["sync.(*Once).Do"] = true
+		k(st, []Val{{S: "Int", T: x.globConst(st, "glob.pql.knownFunctions.m", "Int"), GT: callee.Signature.Results().At(0).Type(), Inner: &Val{S: "@kf"}}})
+		return
+	}
 	if lm := findLibModel(key); lm != nil {
 		x.usedModels[key] = true
 		rs := lm.run(x, st, args, site)
@@ -296,8 +305,30 @@ func (x *Exec) dynamicCall(st *State, call *ssa.Call, fv Val, args []Val, k retK
 		k(st, cb(x, st, fv, args, call))
 		return
 	}
-	_ = sig
 	_ = U
+	if fv.S == "Fn" && fv.T != "" {
+		// case split over the module functions of this signature (address-taken candidates)
+		var cands []*ssa.Function
+		for _, f := range x.E.P.Funcs {
+			if f.Signature.Recv() == nil && f.Parent() == nil && f.TypeParams().Len() == 0 && types.Identical(f.Signature, sig) {
+				cands = append(cands, f)
+			}
+		}
+		sort.Slice(cands, func(i, j int) bool { return funcKey(cands[i]) < funcKey(cands[j]) })
+		var neqs []string
+		for _, c := range cands {
+			fc := U.fnConst(funcKey(c))
+			neqs = append(neqs, fmt.Sprintf("(not (= %s %s))", fv.T, fc))
+			st2 := st.clone()
+			st2.assume(fmt.Sprintf("(= %s %s)", fv.T, fc))
+			x.callFunc(st2, c, nil, args, call, k)
+		}
+		// the function value is none of the candidates: must be impossible
+		st.assume("(and " + strings.Join(append(neqs, "true"), " ") + ")")
+		st.check(x.key+"/safety/dyncall", "false", "call through a function value that is none of the known functions of this type, at "+x.pos(call.Pos()))
+		x.finish(st, "dyncall")
+		return
+	}
 	limitf("dynamic call through %s at %s", name, x.pos(call.Pos()))
 }
 
@@ -389,7 +420,24 @@ func (x *Exec) lookup(st *State, in *ssa.Lookup, set func(ssa.Value, Val)) {
 	ks, vs, dn, vn, dsrt, vsrt := x.mapSorts(mt)
 	_ = ks
 	var okT, valT string
-	if g := x.globalMap(mv); g != nil {
+	if mv.Inner != nil && mv.Inner.S == "@kf" {
+		tab := x.E.kfTable()
+		si := U.byName["functionRewrite"]
+		wi, pi := fieldIndex(si, "write"), fieldIndex(si, "needsParens")
+		hw := st.heap(heapName(si, wi), "Fn")
+		hp := st.heap(heapName(si, pi), "Bool")
+		valT = "0"
+		var oks []string
+		for i := len(tab) - 1; i >= 0; i-- {
+			ref := fmt.Sprintf("(- %d)", i+1)
+			kt := U.lit(tab[i].Key)
+			st.assume(fmt.Sprintf("(= (select %s %s) %s)", hw, ref, U.fnConst(funcKey(tab[i].Fn))))
+			st.assume(fmt.Sprintf("(= (select %s %s) %v)", hp, ref, tab[i].Parens))
+			oks = append(oks, fmt.Sprintf("(= %s %s)", key, kt))
+			valT = fmt.Sprintf("(ite (= %s %s) %s %s)", key, kt, ref, valT)
+		}
+		okT = "(or " + strings.Join(oks, " ") + ")"
+	} else if g := x.globalMap(mv); g != nil {
 		// package-level map: contents fixed by the package initialiser (proved never updated: C14)
 		ents := x.E.globalMapEntries(g)
 		if ents == nil {
